@@ -134,13 +134,13 @@ def run(prop: str, tier: str, seed: int) -> int:
             units.append({"specs": g, "engine": eng, "props": [prop], "seed": seed, "gvals": gvals,
                           "with_can": prop == "C02" and eng != "pure", "mc": True,
                           "tlc_workers": 3 if _size(g[0]) >= 400 else 2, "walks": (0, 0),
-                          "max_states": (80 if prop == "C07" else 150) if q else 4000, "with_burst": prop == "C13",
+                          "max_states": (80 if prop == "C07" else 150) if q else 600, "with_burst": prop == "C13",
                           "with_faults": prop == "C07", "fault_pairs": prop == "C07" and not q})
             if prop == "C07":
                 # (b) every edge again with a plugin, a subscriber and an emit listener that always raise
                 units.append({"specs": g, "engine": eng, "props": [prop], "seed": seed, "gvals": gvals,
                               "with_can": False, "mc": True, "tlc_workers": 2, "walks": (0, 0),
-                              "max_states": 40 if q else 4000, "observer_faults": True,
+                              "max_states": 40 if q else 600, "observer_faults": True,
                               # ... including the steps in which a user action raises (on_action_error itself raises then)
                               "with_faults": True})
     for eng in engines_for(prop):
